@@ -28,6 +28,12 @@ func VerifC30_varint() {
 func VerifC30_huffman() {
 	n := vrt.Range("len", 0, vrt.Param("N", 2))
 	s := vrt.Str("s", n)
+	// optional byte range (registry: the two-byte bound covers printable ASCII; every byte value is covered
+	// by the one-byte bound)
+	lo, hi := byte(vrt.Param("LO", 0)), byte(vrt.Param("HI", 255))
+	for i := 0; i < n; i++ {
+		vrt.Assume(s[i] >= lo && s[i] <= hi)
+	}
 	enc := AppendHuffmanString(nil, s)
 	vrt.Assert(uint64(len(enc)) == HuffmanEncodeLength(s), "C30/huffman-length")
 	var buf bytes.Buffer
